@@ -361,8 +361,18 @@ pub fn random_edit<D: Transactable>(d: &mut D, rng: &mut Rng, gs: &mut GenState)
                 if len > 0 { 15 } else { 0 },
                 if p.counters && len > 0 { 5 } else { 0 },
                 if p.bulk { 8 } else { 0 },
+                if p.nested && len > 0 { 4 } else { 0 },
             ];
             match rng.weighted(&w) {
+                6 => {
+                    // overwrite an element with a new object (concurrently with scalar overwrites this
+                    // leaves object-vs-scalar conflicts on one element)
+                    kind = "put_object_seq";
+                    let i = hot_index(rng, len);
+                    let t = *rng.pick(&[ObjType::Map, ObjType::List, if p.text { ObjType::Text } else { ObjType::Map }, if p.text { ObjType::Text } else { ObjType::List }]);
+                    desc = format!("put_object({}, {i}, {t:?})", oid(&obj));
+                    r = d.put_object(&obj, i, t).map(|id| gs.objs.push((id, t)));
+                }
                 0 => {
                     kind = "insert";
                     let i = rng.below(len + 1);
@@ -912,6 +922,17 @@ impl World {
                             self.merge(a, b);
                             let _ = self.docs[b].delete(&obj, ib);
                         }
+                    }
+                    5 if !is_text && p.nested && la.min(lb) > 0 => {
+                        // object vs scalar overwrite of one element
+                        let t = if p.text { ObjType::Text } else { ObjType::Map };
+                        if let Ok(id) = self.docs[a].put_object(&obj, i, t) {
+                            if t == ObjType::Text {
+                                let _ = self.docs[a].splice_text(&id, 0, 0, "nested");
+                            }
+                            self.gs.objs.push((id, t));
+                        }
+                        let _ = self.docs[b].put(&obj, i, v2);
                     }
                     2 if !is_text && p.counters && la.min(lb) > 0 => {
                         // concurrent counters on one element, merge, increment
